@@ -5,27 +5,15 @@ import AldorVerif.Model.Exit
 
 * `keyIx` (token.c) is the only table of the scanner/includer sources that is subscripted by a
   value of character origin and has a declared length (`Gen.CharIndex.sites`, regenerated from
-  the sources on every run).  `keytag_index_safe_statement`: every string the scanner hands to
-  `keyTag` subscripts `keyIx` within its bounds.
-* `exit_honest_statement`: the exit status is non-zero exactly when an error was reported.
+  the sources on every run).  `keytag_index_safe`: every string the scanner hands to `keyTag`
+  subscripts `keyIx` within its bounds.
+* `exit_honest`: the exit status is non-zero exactly when an error was reported.
 
-Both are **false of the code as it is** (`…_refuted`, witnesses replayed on the real compiler by
-checks/parts/scanfuzz.py) and proved under the recorded guards (`…_partial`).
-
-## Switching after a repair in /repo
-* keyIx: if `keyTag`/`keyLongest` are repaired to reject `ch <= 0` (the one-character repair
-  `(ch = str[0]) <= 0`), change `Scan.keyLookupIdx` in Model/Scan.lean to
-  `if toSChar b ≤ 0 then none else some (toSChar b)`; then delete
-  `keytag_index_safe_statement_refuted`, and prove the statement with
-  `theorem keytag_index_safe : keytag_index_safe_statement := keytag_index_safe_of_lookup (by decide +kernel)`.
-  If instead the index becomes `unsigned char` and the table gets `UCHAR_MAX+1` entries, change
-  `keyLookupIdx` to `if b = 0 then none else some (b : Int)` and `modelIndexSigned := false`
-  (`keyIxLen` is regenerated); the same proof goes through.  In both cases the correspondence
-  (checks/parts/scanfuzz.py) stops seeing FAULT answers.
-* exit status: change `Exit.mainClamp` to what the repaired `main` computes (e.g. `min n 255`),
-  delete `exit_honest_statement_refuted` and prove
-  `theorem exit_honest : exit_honest_statement := exit_honest_of_clamp (by intro e; simp [mainClamp]; omega)`.
-  Update THEOREMS in checks/parts/scanfuzz.py accordingly. -/
+Both were false of the code before the repairs f6aff20 (token.c: `(ch = str[0]) <= 0`) and
+20d6e38 (main.c: status saturated at 255); `old_keylookup_out_of_range` and `old_exit_wraps`
+keep the witnesses as lemmas about the old text.  If the model and the code drift apart
+again the correspondence in checks/parts/scanfuzz.py (token dumps for every first byte with and
+without the escape character; exit status of 255/256/257/512 errors) reports it. -/
 namespace AldorVerif.C07
 open AldorVerif.Scan AldorVerif.Exit AldorVerif.Gen.CharIndex
 
@@ -37,17 +25,7 @@ def keytag_index_safe_statement : Prop :=
   ∀ src, SrcOK src → ∀ t ∈ scan src, ∀ w, t.word? = some w →
     ∀ i, keyLookupIdx ((cstr w).headD 0) = some i → IdxOK i
 
-/-- `x := _\xe9;` — the escape character lets byte 0xE9 start a word; `ch = str[0]` is −23 -/
-def witnessKeyIx : List Nat := [120, 32, 58, 61, 32, 95, 233, 59, 10]
-
-theorem keytag_index_safe_statement_refuted : ¬ keytag_index_safe_statement := by
-  intro h
-  have := h witnessKeyIx (by decide) (.fault [233] (-23)) (by decide +kernel) [233] rfl (-23) (by decide +kernel)
-  revert this; decide
-
-/-- the statement reduces to a fact about single bytes: which first bytes can a word have?
-    (this is the lemma that proves the full statement once `keyLookupIdx` never yields a
-    subscript outside the table) -/
+/-- the statement reduces to a fact about single bytes: which first bytes can a word have? -/
 theorem keytag_index_safe_of_lookup (h : ∀ b, b < 256 → (keyLookupIdx b).all (fun i => decide (IdxOK i)) = true) :
     keytag_index_safe_statement := by
   intro src hsrc t ht w hw i hi
@@ -66,32 +44,21 @@ theorem keytag_index_safe_of_lookup (h : ∀ b, b < 256 → (keyLookupIdx b).all
   rw [hi] at this
   simpa using this
 
-/-- texts made of bytes < 0x80 are safe (with or without the escape character) -/
-theorem keytag_index_safe_partial (src : List Nat) (_hsrc : SrcOK src) (hascii : ∀ b ∈ src, b < 128) :
-    ∀ t ∈ scan src, ∀ w, t.word? = some w → ∀ i, keyLookupIdx ((cstr w).headD 0) = some i → IdxOK i := by
-  intro t ht w hw i hi
-  have hb := scan_word_bytes src t ht w hw
-  have hlt : (cstr w).headD 0 < 128 := by
-    cases hc : cstr w with
-    | nil => simp
-    | cons a r =>
-      have : a ∈ w := by
-        have : a ∈ cstr w := by rw [hc]; simp
-        exact (List.takeWhile_sublist _).subset this
-      rcases hb a this with h | h
-      · simpa using hascii a h
-      · subst h; simp
-  generalize (cstr w).headD 0 = b at hlt hi
-  unfold keyLookupIdx toSChar at hi
-  simp only [if_pos hlt] at hi
-  split at hi
-  · cases hi
-  · cases hi
-    unfold IdxOK keyIxLen
-    omega
+/-- **full statement**: whatever bytes the text contains, with or without the escape character -/
+theorem keytag_index_safe : keytag_index_safe_statement :=
+  keytag_index_safe_of_lookup (by decide +kernel)
 
-example : ∃ src, SrcOK src ∧ (∀ b ∈ src, b < 128) ∧ (scan src).any (fun t => t.word?.isSome) = true :=
-  ⟨[120, 32, 95, 43, 10], by decide, by decide, by decide +kernel⟩
+/-- `x := _\xe9;` — the escape character lets byte 0xE9 start a word -/
+def witnessKeyIx : List Nat := [120, 32, 58, 61, 32, 95, 233, 59, 10]
+
+/-- non-vacuity: the witness of the old defect is an admissible text, its word [0xE9] reaches
+    `keyTag`, and no subscript is evaluated for it any more -/
+example : SrcOK witnessKeyIx ∧ Tok.id [233] ∈ scan witnessKeyIx ∧ keyLookupIdx 233 = none := by
+  refine ⟨by decide, by decide +kernel, by decide +kernel⟩
+
+/-- about the text before f6aff20 (`(ch = str[0]) == 0`): byte 0xE9 gave the subscript −23 -/
+theorem old_keylookup_out_of_range : keyLookupIdxOld 233 = some (-23) ∧ ¬ IdxOK (-23) := by
+  constructor <;> decide +kernel
 
 /-- without the escape character only ASCII letters, `%` and `?` start the strings that reach
     `keyTag` (so an unescaped byte ≥ 0x80 is rejected by `scanError`, never looked up) -/
@@ -155,25 +122,29 @@ theorem ctype_index_in_glibc_range (b : Nat) (hb : b < 256) : -128 ≤ toSChar b
 
 def exit_honest_statement : Prop := ∀ e : Nat, exitStatus e ≠ 0 ↔ e > 0
 
-/-- 256 errors (reachable with `-M no-emax`) exit with status 0 -/
-theorem exit_honest_statement_refuted : ¬ exit_honest_statement := by
-  intro h
-  have := (h 256).2 (by decide)
-  revert this; decide
-
-theorem exit_wrap_exact (e : Nat) : exitStatus e = e % 256 := rfl
-
-theorem exit_honest_partial (e : Nat) (h : e < 256) : exitStatus e ≠ 0 ↔ e > 0 := by
-  rw [exit_wrap_exact, Nat.mod_eq_of_lt h]; omega
-
-example : exitStatus 255 = 255 ∧ exitStatus 256 = 0 ∧ exitStatus 257 = 1 := by decide
-
-/-- what a repaired `main` has to satisfy for the statement to hold -/
+/-- what `main` has to satisfy for the statement to hold -/
 theorem exit_honest_of_clamp (h : ∀ e, mainClamp e < 256 ∧ (mainClamp e = 0 ↔ e = 0)) : exit_honest_statement := by
   intro e
   obtain ⟨h1, h2⟩ := h e
   unfold exitStatus osStatus
   rw [Nat.mod_eq_of_lt h1]
   omega
+
+/-- **full statement**: the exit status is non-zero exactly when an error was reported -/
+theorem exit_honest : exit_honest_statement :=
+  exit_honest_of_clamp (by intro e; simp only [mainClamp]; omega)
+
+/-- the status is the error count saturated at 255 -/
+theorem exit_status_saturates (e : Nat) : exitStatus e = min e 255 := by
+  unfold exitStatus osStatus mainClamp
+  exact Nat.mod_eq_of_lt (by omega)
+
+example : exitStatus 0 = 0 ∧ exitStatus 255 = 255 ∧ exitStatus 256 = 255 ∧ exitStatus 257 = 255 ∧ exitStatus 512 = 255 := by decide
+
+/-- several files: the sum of the per-file counts is what is saturated -/
+theorem exit_honest_files (fs : List Nat) : exitStatusFiles fs ≠ 0 ↔ compFilesLoop fs > 0 := exit_honest _
+
+/-- about the text before 20d6e38 (`return compCmd(argc, argv);`): 256 errors exited with status 0 -/
+theorem old_exit_wraps : osStatus (mainClampOld 256) = 0 ∧ osStatus (mainClampOld 255) = 255 ∧ osStatus (mainClampOld 257) = 1 := by decide
 
 end AldorVerif.C07
